@@ -259,6 +259,7 @@ class Ctx(object):
         self.concrete_found = set() # tie names for which a concrete input was found
         self.assumptions = []
         self.trusted = []
+        self.trusted_extra = []      # translators used by this run (regen_obligations)
         self.rule = ''
         self.exhaustive = False
         self.log_lines = []
@@ -363,6 +364,9 @@ class Ctx(object):
         if VERIF not in sys.path:
             sys.path.insert(0, VERIF)
         ea = importlib.import_module(module)
+        self.trusted_extra.append('translator %s (fail-closed; accepted subset and reading conventions in its header); '
+                                  'its output %s is re-generated from the current source and coq/obl/%s re-proved on it in this run'
+                                  % (module.replace('.', '/') + '.py', genfile, oblfile))
         ea.REPO = REPO
         ea.PROP = self.prop          # a translator may emit only what this property's obligations use
         tag = 'regenerate-' + genfile[4:-2]
@@ -523,7 +527,7 @@ class Ctx(object):
             'obligations': n_obl, 'discharged': n_ok,
             'checker_cmd': 'coqc -R coq/theories PM <Props file> (full .vo; library by '
                            'coq_makefile+make); cases by Eval vm_compute',
-            'trusted_base': self.trusted or DEFAULT_TRUSTED,
+            'trusted_base': (self.trusted or DEFAULT_TRUSTED) + self.trusted_extra,
             'theorems': [o[0] for o in self.obligations if o[1]],
             'undischarged': [o[0] for o in self.obligations if not o[1]],
             'axioms': self.axioms,
